@@ -93,6 +93,10 @@ def family_alphabets(tier):
                   mut("bP", "set_new_solver_initial_guess", [5.0, 1.0, 1.0]), mut("bS", "set_new_solver_initial_guess", [5.0, 1.0, 1.0]),
                   mut("bS2", "set_new_solver_initial_guess", [8.0, 1.0, 0.5]),
                   mut("bP", "set_new_solver_tolerance", 1.0e-4),
+                  # the loosest tolerance the Newton solver accepts, set on ANOTHER object, and a guess for bS from which the
+                  # iteration at that tolerance stops 1e-6 short of the converged state: the Newton solver must not be shared
+                  # between objects (anchored state NohBlackBoxEos.solver)
+                  mut("bP", "set_new_solver_tolerance", 1.0e-2), mut("bS", "set_new_solver_initial_guess", [60.0, 0.6, 0.4]),
                   call("bP", [0.05, 0.2, 0.5], 0.6), call("bS", [0.05, 0.2, 0.5], 0.6), call("bS2", [0.05, 0.2, 0.5], 0.6)]
     F["blake"] = [new("kA", "blake.blake.Blake"), new("kB", "blake.blake.Blake", shear_mod=3.0e9, bulk_mod=8.0e9, ref_density=7800.0),
                   call("kA", [0.1, 0.2, 0.4, 0.8], 1.6e-4), call("kB", [0.1, 0.2, 0.4, 0.8], 1.6e-4), call("kA", [0.15, 0.3], 0.8e-4)]
